@@ -1,2 +1,508 @@
-//! Simulated TCP: listeners and byte pipes (filled in together with the glommio stub).
-pub fn reset() {}
+//! Simulated TCP: listeners and connections made of two bounded byte pipes. The tracker
+//! side is poll-based (used by the glommio stub's TcpStream); the client side is blocking
+//! (used by simulated client threads). All state is process-global and reset per run.
+use crate::engine;
+use std::collections::{BTreeMap, VecDeque};
+use std::io;
+use std::net::{IpAddr, SocketAddr, SocketAddrV6};
+use std::sync::{Arc, Mutex};
+use std::task::{Context, Poll, Waker};
+
+pub struct Pipe {
+    pub buf: VecDeque<u8>,
+    pub cap: usize,
+    /// writer closed its end (FIN): reader sees EOF after draining
+    pub closed: bool,
+    /// connection reset: reads and writes fail
+    pub reset: bool,
+    pub reader_waker: Option<Waker>,
+    pub reader_tid: Option<engine::Tid>,
+    pub writer_waker: Option<Waker>,
+    pub writer_tid: Option<engine::Tid>,
+    pub total_written: u64,
+}
+
+impl Pipe {
+    fn new(cap: usize) -> Arc<Mutex<Pipe>> {
+        Arc::new(Mutex::new(Pipe {
+            buf: VecDeque::new(),
+            cap,
+            closed: false,
+            reset: false,
+            reader_waker: None,
+            reader_tid: None,
+            writer_waker: None,
+            writer_tid: None,
+            total_written: 0,
+        }))
+    }
+}
+
+fn notify_reader(p: &mut Pipe) -> (Option<Waker>, Option<engine::Tid>) {
+    (p.reader_waker.take(), p.reader_tid.take())
+}
+fn notify_writer(p: &mut Pipe) -> (Option<Waker>, Option<engine::Tid>) {
+    (p.writer_waker.take(), p.writer_tid.take())
+}
+fn fire(n: (Option<Waker>, Option<engine::Tid>)) {
+    if let Some(w) = n.0 {
+        w.wake();
+    }
+    if let Some(t) = n.1 {
+        engine::wake(t);
+    }
+}
+
+/// One connection. `c2s`: client writes, tracker reads. `s2c`: tracker writes, client reads.
+#[derive(Clone)]
+pub struct Conn {
+    pub id: usize,
+    pub c2s: Arc<Mutex<Pipe>>,
+    pub s2c: Arc<Mutex<Pipe>>,
+    /// the client's true network address
+    pub client_addr: SocketAddr,
+    /// as the accepting socket presents it (IPv4-mapped on a dual-stack IPv6 listener)
+    pub presented_addr: SocketAddr,
+    pub listener: usize,
+}
+
+pub struct ListenerState {
+    pub pending: VecDeque<Conn>,
+    pub waker: Option<Waker>,
+    pub addr: SocketAddr,
+    pub only_v6: bool,
+    pub owner: engine::Tid,
+    pub closed: bool,
+}
+
+#[derive(Default)]
+struct Net {
+    listeners: Vec<Arc<Mutex<ListenerState>>>,
+    next_conn: usize,
+    /// connection id -> caps for successive tracker-side writes (short writes)
+    write_caps: BTreeMap<usize, VecDeque<usize>>,
+    /// default capacity of the tracker->client pipe (back-pressure when the client is slow)
+    s2c_cap: usize,
+    c2s_cap: usize,
+    fired: BTreeMap<&'static str, u64>,
+    accepted: u64,
+}
+
+static NET: Mutex<Option<Net>> = Mutex::new(None);
+
+fn with<R>(f: impl FnOnce(&mut Net) -> R) -> R {
+    let mut g = NET.lock().unwrap_or_else(|p| p.into_inner());
+    if g.is_none() {
+        *g = Some(Net { s2c_cap: 1 << 20, c2s_cap: 1 << 20, ..Default::default() });
+    }
+    f(g.as_mut().unwrap())
+}
+
+pub fn reset() {
+    *NET.lock().unwrap_or_else(|p| p.into_inner()) = Some(Net { s2c_cap: 1 << 20, c2s_cap: 1 << 20, ..Default::default() });
+}
+pub fn fired() -> BTreeMap<&'static str, u64> {
+    with(|n| n.fired.clone())
+}
+pub fn set_pipe_caps(c2s: usize, s2c: usize) {
+    with(|n| {
+        n.c2s_cap = c2s.max(1);
+        n.s2c_cap = s2c.max(1);
+    });
+}
+/// Short-write plan: the k-th tracker-side write on connection `conn` accepts at most caps[k].
+pub fn set_write_caps(conn: usize, caps: Vec<usize>) {
+    with(|n| {
+        n.write_caps.insert(conn, caps.into_iter().collect());
+    });
+}
+pub fn num_listeners() -> usize {
+    with(|n| n.listeners.len())
+}
+/// (index, is_v6, only_v6, owner thread) of every listener
+pub fn listeners() -> Vec<(usize, bool, bool, engine::Tid)> {
+    with(|n| {
+        n.listeners
+            .iter()
+            .enumerate()
+            .map(|(i, l)| {
+                let l = l.lock().unwrap();
+                (i, l.addr.is_ipv6(), l.only_v6, l.owner)
+            })
+            .collect()
+    })
+}
+
+fn to_mapped(a: SocketAddr) -> SocketAddr {
+    match a {
+        SocketAddr::V4(v4) => SocketAddr::V6(SocketAddrV6::new(v4.ip().to_ipv6_mapped(), v4.port(), 0, 0)),
+        x => x,
+    }
+}
+
+// ------------------------------------------------------------------ tracker side
+
+pub fn bind(addr: SocketAddr, only_v6: bool) -> io::Result<Arc<Mutex<ListenerState>>> {
+    crate::fault::seam_point("tcp-bind");
+    if let Some(e) = crate::fault::on_bind() {
+        return Err(e);
+    }
+    let l = Arc::new(Mutex::new(ListenerState { pending: VecDeque::new(), waker: None, addr, only_v6, owner: engine::my_tid(), closed: false }));
+    with(|n| n.listeners.push(l.clone()));
+    engine::log("tcp-bind", addr.port() as u64, addr.is_ipv6() as u64);
+    Ok(l)
+}
+
+/// Poll for the next accepted connection. `Ready(None)` = listener closed (injected).
+pub fn poll_accept(l: &Arc<Mutex<ListenerState>>, cx: &mut Context<'_>) -> Poll<Option<Conn>> {
+    crate::fault::seam_point("accept");
+    if crate::fault::end_loop_now() {
+        l.lock().unwrap().closed = true;
+    }
+    let mut g = l.lock().unwrap();
+    if g.closed {
+        return Poll::Ready(None);
+    }
+    match g.pending.pop_front() {
+        Some(c) => {
+            drop(g);
+            with(|n| n.accepted += 1);
+            engine::log("tcp-accept", c.id as u64, 0);
+            Poll::Ready(Some(c))
+        }
+        None => {
+            g.waker = Some(cx.waker().clone());
+            Poll::Pending
+        }
+    }
+}
+
+pub fn poll_read(c: &Conn, cx: &mut Context<'_>, b: &mut [u8]) -> Poll<io::Result<usize>> {
+    crate::fault::seam_point("tcp-read");
+    let mut p = c.c2s.lock().unwrap();
+    if p.reset {
+        return Poll::Ready(Err(io::Error::from_raw_os_error(libc::ECONNRESET)));
+    }
+    if !p.buf.is_empty() {
+        let n = b.len().min(p.buf.len());
+        for (i, x) in p.buf.drain(..n).enumerate() {
+            b[i] = x;
+        }
+        let w = notify_writer(&mut p);
+        drop(p);
+        fire(w);
+        engine::log("s-read", c.id as u64, n as u64);
+        return Poll::Ready(Ok(n));
+    }
+    if p.closed {
+        return Poll::Ready(Ok(0));
+    }
+    p.reader_waker = Some(cx.waker().clone());
+    Poll::Pending
+}
+
+pub fn poll_peek(c: &Conn, cx: &mut Context<'_>, b: &mut [u8]) -> Poll<io::Result<usize>> {
+    let mut p = c.c2s.lock().unwrap();
+    if p.reset {
+        return Poll::Ready(Err(io::Error::from_raw_os_error(libc::ECONNRESET)));
+    }
+    if !p.buf.is_empty() || p.closed {
+        let n = b.len().min(p.buf.len());
+        for (i, x) in p.buf.iter().take(n).enumerate() {
+            b[i] = *x;
+        }
+        return Poll::Ready(Ok(n));
+    }
+    p.reader_waker = Some(cx.waker().clone());
+    Poll::Pending
+}
+
+pub fn poll_write(c: &Conn, cx: &mut Context<'_>, b: &[u8]) -> Poll<io::Result<usize>> {
+    crate::fault::seam_point("tcp-write");
+    if b.is_empty() {
+        return Poll::Ready(Ok(0));
+    }
+    let cap_fault = with(|n| n.write_caps.get_mut(&c.id).and_then(|q| q.pop_front()));
+    let mut p = c.s2c.lock().unwrap();
+    if p.reset {
+        return Poll::Ready(Err(io::Error::from_raw_os_error(libc::ECONNRESET)));
+    }
+    if p.closed {
+        return Poll::Ready(Err(io::Error::from_raw_os_error(libc::EPIPE)));
+    }
+    let room = p.cap.saturating_sub(p.buf.len());
+    if room == 0 {
+        p.writer_waker = Some(cx.waker().clone());
+        drop(p);
+        // the cap (if any) was not consumed by a real write: put it back
+        if let Some(k) = cap_fault {
+            with(|n| n.write_caps.entry(c.id).or_default().push_front(k));
+        }
+        with(|n| *n.fired.entry("tcp-backpressure").or_insert(0) += 1);
+        return Poll::Pending;
+    }
+    let mut n = b.len().min(room);
+    if n < b.len() {
+        with(|nn| *nn.fired.entry("tcp-short-write-pipe-full").or_insert(0) += 1);
+    }
+    if let Some(k) = cap_fault {
+        if k.max(1) < n {
+            n = k.max(1);
+            with(|nn| *nn.fired.entry("tcp-short-write").or_insert(0) += 1);
+        }
+    }
+    p.buf.extend(&b[..n]);
+    p.total_written += n as u64;
+    let w = notify_reader(&mut p);
+    drop(p);
+    fire(w);
+    engine::log("s-write", c.id as u64, n as u64);
+    Poll::Ready(Ok(n))
+}
+
+/// Tracker closes its sending direction (also used on drop of the stream).
+pub fn server_close(c: &Conn) {
+    let w = {
+        let mut p = c.s2c.lock().unwrap();
+        if p.closed {
+            (None, None)
+        } else {
+            p.closed = true;
+            notify_reader(&mut p)
+        }
+    };
+    fire(w);
+    // the tracker no longer reads: a blocked client writer must not wait for ever
+    let w = {
+        let mut p = c.c2s.lock().unwrap();
+        p.reset = true;
+        notify_writer(&mut p)
+    };
+    fire(w);
+    engine::log("server-close", c.id as u64, 0);
+}
+
+// ------------------------------------------------------------------ client side
+
+#[derive(Clone, Copy, Debug, PartialEq)]
+pub enum Pick {
+    Hash,
+    Index(usize),
+}
+
+pub struct ClientStream {
+    pub conn: Conn,
+    closed: bool,
+}
+
+/// Open a connection from `from`. None when no listener can accept this family.
+pub fn connect(from: SocketAddr, pick: Pick) -> Option<ClientStream> {
+    let r = with(|n| {
+        let mut v4 = Vec::new();
+        let mut v6 = Vec::new();
+        let mut dual = Vec::new();
+        for (i, l) in n.listeners.iter().enumerate() {
+            let l = l.lock().unwrap();
+            if l.closed {
+                continue;
+            }
+            if l.addr.is_ipv4() {
+                v4.push(i);
+            } else {
+                v6.push(i);
+                if !l.only_v6 {
+                    dual.push(i);
+                }
+            }
+        }
+        let cands = if from.is_ipv4() {
+            if !v4.is_empty() {
+                v4
+            } else {
+                dual
+            }
+        } else {
+            v6
+        };
+        if cands.is_empty() {
+            return None;
+        }
+        let k = match pick {
+            Pick::Index(i) => i % cands.len(),
+            Pick::Hash => {
+                let mut h: u64 = 0xcbf29ce484222325;
+                let ipb: Vec<u8> = match from.ip() {
+                    IpAddr::V4(a) => a.octets().to_vec(),
+                    IpAddr::V6(a) => a.octets().to_vec(),
+                };
+                for b in ipb.iter().chain(from.port().to_be_bytes().iter()) {
+                    h = (h ^ *b as u64).wrapping_mul(0x100000001b3);
+                }
+                (h >> 17) as usize % cands.len()
+            }
+        };
+        let li = cands[k];
+        let l = n.listeners[li].clone();
+        let id = n.next_conn;
+        n.next_conn += 1;
+        let is_v6_listener = l.lock().unwrap().addr.is_ipv6();
+        let presented = if is_v6_listener { to_mapped(from) } else { from };
+        let conn = Conn { id, c2s: Pipe::new(n.c2s_cap), s2c: Pipe::new(n.s2c_cap), client_addr: from, presented_addr: presented, listener: li };
+        let w = {
+            let mut g = l.lock().unwrap();
+            g.pending.push_back(conn.clone());
+            g.waker.take()
+        };
+        Some((conn, w))
+    });
+    let (conn, w) = r?;
+    engine::log("tcp-connect", conn.id as u64, conn.listener as u64);
+    if let Some(w) = w {
+        w.wake();
+    }
+    engine::maybe_yield();
+    Some(ClientStream { conn, closed: false })
+}
+
+impl ClientStream {
+    pub fn id(&self) -> usize {
+        self.conn.id
+    }
+
+    /// Write all of `data` (blocks under back-pressure). Err when the tracker closed / reset.
+    pub fn write(&self, data: &[u8]) -> io::Result<()> {
+        let mut off = 0;
+        while off < data.len() {
+            let r = {
+                let mut p = self.conn.c2s.lock().unwrap();
+                if p.reset || p.closed {
+                    return Err(io::Error::from_raw_os_error(libc::EPIPE));
+                }
+                let room = p.cap.saturating_sub(p.buf.len());
+                if room == 0 {
+                    p.writer_tid = Some(engine::my_tid());
+                    None
+                } else {
+                    let n = room.min(data.len() - off);
+                    p.buf.extend(&data[off..off + n]);
+                    off += n;
+                    Some(notify_reader(&mut p))
+                }
+            };
+            match r {
+                Some(w) => fire(w),
+                None => {
+                    engine::block(Some(60_000_000_000), "client-write");
+                }
+            }
+        }
+        engine::log("c-write", self.conn.id as u64, data.len() as u64);
+        engine::maybe_yield();
+        Ok(())
+    }
+
+    /// Read up to `max` bytes. Ok(empty) = EOF; Err(TimedOut) = nothing within the timeout.
+    pub fn read(&self, max: usize, timeout_ns: u64) -> io::Result<Vec<u8>> {
+        let mut timed_out = false;
+        loop {
+            {
+                let mut p = self.conn.s2c.lock().unwrap();
+                if !p.buf.is_empty() {
+                    let n = max.min(p.buf.len());
+                    let v: Vec<u8> = p.buf.drain(..n).collect();
+                    p.reader_tid = None;
+                    let w = notify_writer(&mut p);
+                    drop(p);
+                    fire(w);
+                    engine::log("c-read", self.conn.id as u64, n as u64);
+                    return Ok(v);
+                }
+                if p.reset {
+                    p.reader_tid = None;
+                    return Err(io::Error::from_raw_os_error(libc::ECONNRESET));
+                }
+                if p.closed {
+                    p.reader_tid = None;
+                    return Ok(Vec::new());
+                }
+                if timed_out {
+                    p.reader_tid = None;
+                    return Err(io::ErrorKind::TimedOut.into());
+                }
+                p.reader_tid = Some(engine::my_tid());
+            }
+            timed_out = engine::block(Some(timeout_ns), "client-read");
+        }
+    }
+
+    /// Orderly close of the client's sending direction (FIN).
+    pub fn shutdown_write(&mut self) {
+        let w = {
+            let mut p = self.conn.c2s.lock().unwrap();
+            p.closed = true;
+            notify_reader(&mut p)
+        };
+        fire(w);
+        engine::log("client-fin", self.conn.id as u64, 0);
+    }
+
+    /// Abrupt reset (RST): both directions fail from now on.
+    pub fn reset(&mut self) {
+        self.closed = true;
+        let w = {
+            let mut p = self.conn.c2s.lock().unwrap();
+            p.reset = true;
+            p.buf.clear();
+            notify_reader(&mut p)
+        };
+        fire(w);
+        let w = {
+            let mut p = self.conn.s2c.lock().unwrap();
+            p.reset = true;
+            notify_writer(&mut p)
+        };
+        fire(w);
+        engine::log("client-reset", self.conn.id as u64, 0);
+    }
+
+    pub fn close(&mut self) {
+        if self.closed {
+            return;
+        }
+        self.closed = true;
+        self.shutdown_write();
+        // stop reading too: the tracker's writes now fail instead of filling the pipe
+        let w = {
+            let mut p = self.conn.s2c.lock().unwrap();
+            p.reset = true;
+            notify_writer(&mut p)
+        };
+        fire(w);
+    }
+}
+
+impl Drop for ClientStream {
+    fn drop(&mut self) {
+        if std::thread::panicking() {
+            return;
+        }
+        self.close();
+    }
+}
+
+impl io::Read for ClientStream {
+    fn read(&mut self, buf: &mut [u8]) -> io::Result<usize> {
+        let v = ClientStream::read(self, buf.len(), 30_000_000_000)?;
+        buf[..v.len()].copy_from_slice(&v);
+        Ok(v.len())
+    }
+}
+impl io::Write for ClientStream {
+    fn write(&mut self, buf: &[u8]) -> io::Result<usize> {
+        ClientStream::write(self, buf)?;
+        Ok(buf.len())
+    }
+    fn flush(&mut self) -> io::Result<()> {
+        Ok(())
+    }
+}
